@@ -130,7 +130,7 @@ def shard(seed, specs):
         exp = expand(cmds)
         st['source'] = source
         st['symbols'] = nsym
-        cases.append(dech.Case('-lh1-', stream, len(exp), sched=[rnd.choice([1, 60, 4096, 100000])] if nsym < 3000 else [],
+        cases.append(dech.Case('-lh1-', stream, len(exp), sched=[rnd.choice([1, 60, 4096, 100000])] if nsym < 3000 else [], in_chunk=rnd.choice([0, 0, 0, 1, 3, 7]),
                                meta=st))
         expect.append(exp)
 
